@@ -82,6 +82,7 @@ def plan(tier, seed):
     jobs.append({"func": "uris", "name": "uris", "args": {"seed": seed * 1000 + 50, "n": 400 if tier == "quick" else 6000}})
     for i, ser in enumerate(["json", "msgpack", "cbor", "ubjson"]):
         jobs.append({"func": "octets", "name": "octets/" + ser, "args": {"seed": seed * 1000 + 60 + i, "n": 600 if tier == "quick" else 10000, "ser": ser}})
+        jobs.append({"func": "octets_exhaustive", "name": "octets_exhaustive/" + ser, "args": {"ser": ser}})
     if tier == "thorough":
         for sh in range(4):
             jobs.append({"func": "fuzz", "name": "fuzz/octets/%d" % sh, "args": {"target": "octets", "runs": 150000, "seed": seed * 1000 + 700 + sh}, "timeout": 3000})
@@ -451,6 +452,59 @@ def octets(col, seed, n, ser):
         col.case(ok or c["mode"] != "random", dig=[ser, c["batched"], c["data"]], cls=["octets/%s/%s/%s" % (ser, c["mode"], "accepted" if ok else "rejected")],
                  sample={"mode": c["mode"], "data": c["data"][:40]})
     run_hypothesis(col, "octets", strat(), body, n, seed)
+
+
+def octets_exhaustive(col, ser):
+    """exhaustive per serializer (plain and batched): every octet value substituted for, and inserted before, every octet of six small valid
+    messages (reserved / undefined lead octets of each format at every structural position), every truncation, and deeply nested containers"""
+    from autobahn.wamp import message as M
+    from checks.c03_wamp_roundtrip import make_serializer
+    from harness.core import guarded_blocks
+    allowed = allowed_exc()
+    base = ctx_msg_base()
+    msgs = [M.Hello("realm1", {"subscriber": __import__("autobahn").wamp.role.RoleSubscriberFeatures()}), M.Publish(7, "com.x.t", args=[1, "a", None], kwargs={"k": [True, 2.5]}),
+            M.Event(5, 6, args=[b"\x00\x01"] if ser != "json" else ["x"], publisher=9), M.Call(8, "a.b", args=[{"n": {}}]), M.Result(3, args=[[]], progress=True),
+            M.Error(48, 4, "wamp.error.x", args=["why"], kwargs={"t": "v"})]
+    n = 0
+
+    def probe(sobj, data, what):
+        case = {"check": "octets", "ser": ser, "batched": sobj is sers[True], "data": data}
+        try:
+            out = sobj.unserialize(data)
+            for m in out:
+                if not isinstance(m, base):
+                    raise Violation("C08|octets|%s|non-message-returned" % ser, repr(type(m)), case)
+            return True
+        except Violation:
+            raise
+        except allowed:
+            return False
+        except BaseException as e:
+            raise Violation("C08|octets|%s|%s" % (ser, exc_key(e)), "%s (%s): %r on %d octets %r" % (type(e).__name__, what, e, len(data), data[:40]), case)
+    sers = {b: make_serializer(ser, b) for b in (False, True)}
+    for batched in (False, True):
+        sobj = sers[batched]
+        work = []
+        for m in msgs:
+            data = sobj.serialize(m)[0]
+            for i in range(len(data) + 1):
+                work.append(("truncate", data[:i]))
+                for v in range(256):
+                    if i < len(data):
+                        work.append(("substitute", data[:i] + bytes([v]) + data[i + 1:]))
+                    work.append(("insert", data[:i] + bytes([v]) + data[i:]))
+        openers = {"json": [b"[", b"{\"a\":"], "msgpack": [b"\x91", b"\x81\xa1a", b"\xdc\x00\x01"], "cbor": [b"\x81", b"\x9f", b"\xa1\x61a", b"\xc1"], "ubjson": [b"[", b"{i\x01a"]}[ser]
+        for op in openers:
+            for depth in (50, 500, 3000, 100000):
+                work.append(("nesting", op * depth))
+                work.append(("nesting", op * depth + b"\x01"))
+        acc = 0
+        for what, data in guarded_blocks(work, every=4096):
+            acc += bool(probe(sobj, data, what))
+            n += 1
+        col.case(True, enum=True, cls=["octets-exhaustive/%s%s" % (ser, ".batched" if batched else "")], sample={"inputs": len(work), "accepted": acc})
+        col.count("octets-exhaustive/inputs", len(work))
+    col.exhaustive.append("C08 octets_exhaustive %s: 256 substitutions + 256 insertions at every offset of 6 messages, all truncations, nested containers to depth 100000; plain and batched (%d inputs)" % (ser, n))
 
 
 def ctx_msg_base():
